@@ -708,3 +708,46 @@ Proof.
     rewrite (flat_ippo_nth_lemma d (length Ms) E (vectorize T Ms) a t e Ha) by (rewrite ?vectorize_length; assumption).
     exact (vectorize_nth_lemma d T E Ms a t e W Ha Ht He).
 Qed.
+
+(* the minibatch is made of whole rows: gathering the six tensors with one index array = gathering rows *)
+Lemma minibatch_rows_lemma : forall idx a b c d e f,
+  length b = length a -> length c = length a -> length d = length a -> length e = length a -> length f = length a ->
+  Forall (fun i => (i < length a)%nat) idx ->
+  minibatch idx a b c d e f = gather dflt6 idx (combine6 a b c d e f).
+Proof.
+  induction idx as [|i idx IH]; intros a b c d e f Lb Lc Ld Le Lf Hi; [reflexivity|].
+  pose proof (Forall_inv Hi) as H0. pose proof (Forall_inv_tail Hi) as H1. cbn beta in H0.
+  unfold minibatch, gather in *. cbn [map combine6].
+  rewrite combine6_nth by assumption. f_equal. apply IH; assumption.
+Qed.
+
+(* where the pinned next_done layout is invisible: one agent per policy, or one environment *)
+Lemma flat_next_pinned_one_agent {A} (d : A) E (x : list A) :
+  length x = E -> flat_next_pinned d E [x] = flat_next [x].
+Proof.
+  intros L. unfold flat_next_pinned, flat_next. cbn [concat map]. rewrite app_nil_r.
+  subst E. induction x as [|y x IH] using rev_ind; [reflexivity|].
+  rewrite app_length. cbn [length]. rewrite Nat.add_1_r, seq_S, flat_map_app. cbn [flat_map Nat.add].
+  rewrite app_nth2, Nat.sub_diag by lia. cbn [nth]. rewrite app_nil_r. f_equal.
+  rewrite <- IH at 2. rewrite !flat_map_concat_map. f_equal. apply map_ext_in.
+  intros e He. apply in_seq in He. rewrite app_nth1 by lia. reflexivity.
+Qed.
+
+Lemma flat_next_pinned_one_env {A} (d : A) (xs : list (list A)) :
+  Forall (fun x => length x = 1%nat) xs -> flat_next_pinned d 1 xs = flat_next xs.
+Proof.
+  intros W. unfold flat_next_pinned, flat_next. cbn [seq flat_map]. rewrite app_nil_r.
+  induction xs as [|x xs IH]; [reflexivity|].
+  pose proof (Forall_inv W) as Hx. pose proof (Forall_inv_tail W) as Hxs. cbn beta in Hx.
+  destruct x as [|y [|z x]]; cbn [length] in Hx; try discriminate.
+  cbn [map concat nth app]. f_equal. apply IH. exact Hxs.
+Qed.
+
+Lemma ippo_pinned_same_when_one_agent_or_env nA E T g l obs act lp R V D nv nd :
+  (nA = 1%nat /\ (exists x, nd = [x] /\ length x = E)) \/ (E = 1%nat /\ Forall (fun x => length x = 1%nat) nd) ->
+  ippo_rows_pinned nA E T g l obs act lp R V D nv nd = ippo_rows nA E T g l obs act lp R V D nv nd.
+Proof.
+  intros [[-> (x & -> & Lx)]|[-> W]]; unfold ippo_rows_pinned, ippo_rows, ippo_rows_gen.
+  - rewrite flat_next_pinned_one_agent by exact Lx. reflexivity.
+  - rewrite flat_next_pinned_one_env by exact W. reflexivity.
+Qed.
